@@ -444,6 +444,34 @@ Check C16_rt_parsed : forall dbg hp ho hd input u c o c',
             /\ url_origin dbg hp ho hd c' w = OOk o c'.
 Print Assumptions C16_rt_parsed.
 
+(* the Unicode serialization of the origin of a parse result, same premises: it is the ASCII one for IPv4 / IPv6
+   hosts; for a domain the round trip holds when the ToUnicode form is plain ASCII and Host::parse reads it back as
+   the same host (C12).  Not covered: non-ASCII ToUnicode forms. *)
+Theorem C16_rt_parsed_unicode : forall dbg hp ho hd tu input u c s h p c',
+  (forall d, hd (HDomain d) = d) ->
+  (forall t h, hp t = Ok h ->
+     (plain_text (host_fmt hd h) \/ bracket_text (host_fmt hd h))
+     /\ hd h = host_fmt hd h /\ hp (host_fmt hd h) = Ok h) ->
+  url_parse dbg hp ho hd input = POk u -> url_origin dbg hp ho hd c u = OOk (Tuple s h p) c' ->
+  nlen (ascii_serialization hd (Tuple s h p)) < U32_MAX_P ->
+  match h with HDomain d => plain_text (tu d) /\ hp (tu d) = Ok h | _ => True end ->
+  exists w, url_parse dbg hp ho hd (unicode_serialization hd tu (Tuple s h p)) = POk w
+            /\ url_origin dbg hp ho hd c' w = OOk (Tuple s h p) c'.
+Proof.
+  intros dbg hp ho hd tu input u c s h p c' Hdom HR. exact (rt_parsed_unicode dbg hp ho hd Hdom tu input u c s h p c' HR).
+Qed.
+Check C16_rt_parsed_unicode : forall dbg hp ho hd tu input u c s h p c',
+  (forall d, hd (HDomain d) = d) ->
+  (forall t h, hp t = Ok h ->
+     (plain_text (host_fmt hd h) \/ bracket_text (host_fmt hd h))
+     /\ hd h = host_fmt hd h /\ hp (host_fmt hd h) = Ok h) ->
+  url_parse dbg hp ho hd input = POk u -> url_origin dbg hp ho hd c u = OOk (Tuple s h p) c' ->
+  nlen (ascii_serialization hd (Tuple s h p)) < U32_MAX_P ->
+  match h with HDomain d => plain_text (tu d) /\ hp (tu d) = Ok h | _ => True end ->
+  exists w, url_parse dbg hp ho hd (unicode_serialization hd tu (Tuple s h p)) = POk w
+            /\ url_origin dbg hp ho hd c' w = OOk (Tuple s h p) c'.
+Print Assumptions C16_rt_parsed_unicode.
+
 (* ... and both premises hold for the host MODEL relative to C09's hypothesis on the IDNA function (domains it
    returns are lower-case ASCII without forbidden code points, IPv4 texts are dotted decimal, IPv6 texts bracketed;
    Display/parse round trip = C09_display_rt).  So: parser model + host model, ANY input, ANY nesting of blob:,
